@@ -185,6 +185,159 @@ var parmVariants = func() []int {
 	return out
 }()
 
+// chainSpec is one variant of the filter-chain family: a stream with a filter
+// chain of two or three filters and one /DecodeParms entry per position. The
+// family is the complete product of
+//
+//	chain: every sequence of length 2 and 3 over F /FlateDecode, H
+//	       /ASCIIHexDecode, L /LZWDecode (always written as an array of names)
+//	parms: /DecodeParms absent ("-"), or an array with one entry per filter,
+//	       every position independently one of
+//	       'n' null
+//	       'p' the predictor dictionary <</Predictor 12 /Columns 1>>
+//	       'e' the empty dictionary <<>>
+//	       'P' a reference to an object holding the predictor dictionary
+//	       'E' a reference to an object holding the empty dictionary
+//	       'N' a reference to an object holding null
+//
+// The data is encoded accordingly (a predictor dictionary at the position of
+// FlateDecode or LZWDecode means the PNG "Up" predictor at that stage,
+// ASCIIHexDecode has no parameters and ignores its entry), so every stream of
+// the family decodes, and a parameter entry that moves to, vanishes from or
+// appears at another position changes the decoded bytes. In the case syntax:
+// "S{FF:pn}<>" = /Filter [/FlateDecode /FlateDecode] /DecodeParms [<<...>> null]
+// (what Writer.OpenStream itself writes for a predictor filter followed by a
+// parameterless one), "S{HLF:-}<>", "S{FL:NP}<1>".
+type chainSpec struct {
+	chain string
+	parms string // "-" or one letter per filter
+}
+
+const chainFilters = "FHL"
+const chainEntries = "npePEN"
+
+var chainEntryNames = map[byte]string{'n': "null", 'p': "predictor dictionary", 'e': "empty dictionary",
+	'P': "reference to a predictor dictionary", 'E': "reference to an empty dictionary", 'N': "reference to null"}
+
+// words lists all words of length n over the alphabet, in lexical order of
+// the positions of the letters in the alphabet.
+func words(alphabet string, n int) []string {
+	out := []string{""}
+	for i := 0; i < n; i++ {
+		var next []string
+		for _, w := range out {
+			for k := 0; k < len(alphabet); k++ {
+				next = append(next, w+string(alphabet[k]))
+			}
+		}
+		out = next
+	}
+	return out
+}
+
+var chainSpecs = func() []chainSpec {
+	var out []chainSpec
+	for n := 2; n <= 3; n++ {
+		for _, c := range words(chainFilters, n) {
+			out = append(out, chainSpec{c, "-"})
+			for _, p := range words(chainEntries, n) {
+				out = append(out, chainSpec{c, p})
+			}
+		}
+	}
+	return out
+}()
+
+// stmChainBase: the variants from here on are the filter-chain family. They
+// have no one-letter code in the case syntax.
+var stmChainBase = numStmVariants
+
+var chainIndex = func() map[chainSpec]int {
+	m := map[chainSpec]int{}
+	for i, cs := range chainSpecs {
+		m[cs] = stmChainBase + i
+	}
+	return m
+}()
+
+// chainOf returns the description of a variant of the filter-chain family.
+func chainOf(v int) (chainSpec, bool) {
+	if v < stmChainBase || v >= stmChainBase+len(chainSpecs) {
+		return chainSpec{}, false
+	}
+	return chainSpecs[v-stmChainBase], true
+}
+
+// chainVariantsOfLen lists the variants of the family with n filters.
+func chainVariantsOfLen(n int) []int {
+	var out []int
+	for i, cs := range chainSpecs {
+		if len(cs.chain) == n {
+			out = append(out, stmChainBase+i)
+		}
+	}
+	return out
+}
+
+// predictorAt: the filter at position i of the chain works with the predictor
+// (its parameter entry is, or leads to, the predictor dictionary, and the
+// filter is one that has a predictor).
+func (cs chainSpec) predictorAt(i int) bool {
+	return cs.parms != "-" && (cs.parms[i] == 'p' || cs.parms[i] == 'P') && cs.chain[i] != 'H'
+}
+
+// entryKind: what the parameter entry at position i amounts to: "dict" (the
+// predictor dictionary), "empty" (a dictionary without entries) or "null".
+func (cs chainSpec) entryKind(i int) string {
+	if cs.parms == "-" {
+		return "null"
+	}
+	switch cs.parms[i] {
+	case 'p', 'P':
+		return "dict"
+	case 'e', 'E':
+		return "empty"
+	}
+	return "null"
+}
+
+func (cs chainSpec) String() string {
+	var names []string
+	for i := 0; i < len(cs.chain); i++ {
+		names = append(names, chainLongNames[cs.chain[i]])
+	}
+	p := "absent"
+	if cs.parms != "-" {
+		var es []string
+		for i := 0; i < len(cs.parms); i++ {
+			es = append(es, chainEntryNames[cs.parms[i]])
+		}
+		p = "[" + strings.Join(es, ", ") + "]"
+	}
+	return "filter-chain:" + strings.Join(names, "+") + ";parms:" + p
+}
+
+var chainLongNames = map[byte]string{'F': "FlateDecode", 'H': "ASCIIHexDecode", 'L': "LZWDecode"}
+
+// stmName names a stream variant (evidence, messages).
+func stmName(v int) string {
+	if cs, ok := chainOf(v); ok {
+		return cs.String()
+	}
+	return stmNames[v]
+}
+
+// stmTag is the part of a fingerprint that names the kind of stream: the
+// variant, or for the filter-chain family the length of the chain (the family
+// has thousands of members; which of them fail is in the message and the
+// witness).
+func stmTag(v int) string {
+	if cs, ok := chainOf(v); ok {
+		return fmt.Sprintf("filter-chain-of-%d", len(cs.chain))
+	}
+	return stmNames[v]
+}
+
 // parmOf returns the description of a variant of the parm-reference family.
 func parmOf(v int) (parmSpec, bool) {
 	if v < stmParmBase || v >= numStmVariants {
@@ -331,7 +484,11 @@ func (o Obj) String() string {
 		}
 		b.WriteByte('>')
 	case 'S':
-		fmt.Fprintf(&b, "S%c<", variantChars[o.V])
+		if cs, ok := chainOf(o.V); ok {
+			fmt.Fprintf(&b, "S{%s:%s}<", cs.chain, cs.parms)
+		} else {
+			fmt.Fprintf(&b, "S%c<", variantChars[o.V])
+		}
 		for _, it := range o.It {
 			b.WriteString(it.String())
 		}
@@ -413,6 +570,19 @@ func parseObj(f string) (Obj, error) {
 		case f[0] == '<' && f[len(f)-1] == '>':
 			o.K = 'D'
 			o.It, err = parseItems(f[1 : len(f)-1])
+		case strings.HasPrefix(f, "S{") && f[len(f)-1] == '>':
+			// filter-chain family: S{chain:parms}<items>
+			end := strings.Index(f, "}<")
+			colon := strings.IndexByte(f, ':')
+			if end < 0 || colon < 0 || colon > end {
+				return o, fmt.Errorf("bad stream variant in %q", f)
+			}
+			v, ok := chainIndex[chainSpec{f[2:colon], f[colon+1 : end]}]
+			if !ok {
+				return o, fmt.Errorf("bad filter chain in %q", f)
+			}
+			o.K, o.V = 'S', v
+			o.It, err = parseItems(f[end+2 : len(f)-1])
 		case f[0] == 'S' && len(f) >= 4 && f[2] == '<' && f[len(f)-1] == '>':
 			o.K = 'S'
 			o.V = strings.IndexByte(variantChars, f[1])
@@ -479,7 +649,11 @@ func (g Graph) size() int {
 				n++
 			}
 		}
-		if o.K == 'S' {
+		if cs, ok := chainOf(o.V); o.K == 'S' && ok {
+			// after every one-letter variant; shorter chains, then fewer
+			// non-null parameter entries, direct before indirect ones, first
+			n += 3 + numStmVariants + 10*len(cs.chain) + len(cs.parms) - strings.Count(cs.parms, "n") + strings.Count(cs.parms, "P") + strings.Count(cs.parms, "E") + strings.Count(cs.parms, "N")
+		} else if o.K == 'S' {
 			n += 3 + o.V
 		}
 	}
@@ -627,6 +801,10 @@ type alphabet struct {
 	parmVariants []int
 	parmDead     string
 	parmK        bool
+	// filter-chain family: streams of these variants, bare, and with chainK
+	// also with an entry /K that refers to an object of the graph
+	chainVariants []int
+	chainK        bool
 }
 
 var rich = alphabet{name: "rich", items: "isnadxf", scalars: true, empties: true, arr2: true, dict1: true, dict2: true,
@@ -678,6 +856,18 @@ var parmRefsNoK = func() alphabet {
 	a.name, a.parmK = "parm-refs-nok", false
 	return a
 }()
+
+// chains2, chains3: the filter-chain family with two and with three filters
+// (and the plain stream as a control); chains2Linked adds the kinds that link
+// a second object to such a stream (one-item arrays and dictionaries, plain
+// streams with an entry, bare references), chains2LinkedK also gives the
+// streams of the family an entry /K that refers to an object of the graph.
+var chains2 = alphabet{name: "filter-chains-2", variants: []int{stmPlain}, stmBare: true, chainVariants: chainVariantsOfLen(2)}
+var chains3 = alphabet{name: "filter-chains-3", variants: []int{stmPlain}, stmBare: true, chainVariants: chainVariantsOfLen(3)}
+var chains2Linked = alphabet{name: "filter-chains-2-linked", dict1: true, variants: []int{stmPlain}, stmBare: true,
+	chainVariants: chainVariantsOfLen(2)}
+var chains2LinkedK = alphabet{name: "filter-chains-2-linked+K", dict1: true, variants: []int{stmPlain}, stmBare: true,
+	chainVariants: chainVariantsOfLen(2), chainK: true}
 
 // leanStale, midStale: the same with stale references.
 var leanStale = withStale(lean)
@@ -797,6 +987,14 @@ func (a alphabet) kinds(n int) []Obj {
 			}
 		}
 	}
+	for _, v := range a.chainVariants {
+		out = append(out, Obj{K: 'S', V: v})
+		if a.chainK {
+			for j := 0; j < n; j++ {
+				out = append(out, Obj{K: 'S', V: v, It: []Item{{'r', j}}})
+			}
+		}
+	}
 	for j := 0; j < n; j++ {
 		out = append(out, Obj{K: 'r', It: []Item{{'r', j}}})
 	}
@@ -861,7 +1059,12 @@ func (o Obj) hasNilDictEntry() bool {
 func objKey(o Obj, perm []int) string {
 	var b [8]byte
 	k := b[:0]
-	k = append(k, o.K, byte('0'+o.V))
+	if o.V >= stmChainBase {
+		// filter-chain family: the variant does not fit into one byte
+		k = append(k, o.K, 0xFF, byte(o.V>>8), byte(o.V))
+	} else {
+		k = append(k, o.K, byte('0'+o.V))
+	}
 	for _, it := range o.It {
 		if j, ok := it.mention(); ok {
 			k = append(k, it.K, byte('0'+perm[j]))
